@@ -8,6 +8,18 @@ NOT_YET = {}
 TB = ("Trusted: Lean kernel (axioms propext, Classical.choice, Quot.sound only; audited by #print axioms on every run); "
       "the hand-written model's correspondence to the code (differential, bounded by the generators whose distribution is in the evidence); ")
 CLAIMS = {
+ "C16": dict(
+  category="proof",
+  text=("Lean 4 theorems: (1) for ANY three ordered groups of filters (hence every iteration order of the three hash maps), any region and seed, "
+        "the request datagram read back by a reference reader of the Master Server Query Protocol grammar yields exactly the region, the seed "
+        "'ip:port' and, per group, the key/value pair the protocol defines for each filter (values over all byte strings without backslash/NUL, all "
+        "u32 ids via a proved decimal render/parse inverse); insertion keeps one filter per kind, the later replacing the earlier, each method touching "
+        "only its own group; (2) for EVERY well-formed history of reply pages (any number of pages) the paged query returns all listed addresses in "
+        "order without the terminator, one request per page seeded with the last address of the previous page, and stops; a page in the protocol's "
+        "layout decodes to exactly its entries. Tie + oracle: insertion sequences (exhaustive to 3 in the thorough tier) and page histories on the real "
+        "code; sent requests parsed by the reference grammar and compared with an independently computed denotation."),
+  note=TB + "the reference grammar reader (Spec/Master.lean) is the specification and is trusted; pages are limited to 232 entries (the 1400-byte receive buffer).",
+  technique="Lean 4 proof (tokenisation/grammar round trip; induction over page histories) + grammar-based request differential"),
  "C01": dict(
   category="proof",
   text=("Lean 4 theorem per modelled entry family: for EVERY reply script (any datagrams of any content and size, silences, refused "
